@@ -22,7 +22,6 @@
 package xpath
 
 import (
-	"bytes"
 	"fmt"
 	"math"
 	"regexp"
@@ -363,15 +362,12 @@ func normalizeSpace(ctx *context, args []Datum) (retLit Datum) {
 
 	lit0 := args[0].Literal("normalizeSpace()")
 
-	fields := strings.Fields(lit0)
-	var b bytes.Buffer
-	for _, field := range fields {
-		b.WriteString(field)
-		b.WriteString(" ")
-	}
-	retStr := b.String()
-	retStr = retStr[:len(retStr)-1] // Remove last space
-	return NewLiteralDatum(retStr)
+	// XPath whitespace is space, tab, CR and LF only; an empty or all-blank
+	// argument normalises to the empty string.
+	fields := strings.FieldsFunc(lit0, func(c rune) bool {
+		return c == ' ' || c == '\t' || c == '\r' || c == '\n'
+	})
+	return NewLiteralDatum(strings.Join(fields, " "))
 }
 
 func not(ctx *context, args []Datum) (retBool Datum) {
